@@ -76,7 +76,8 @@ def real_case(case):
             res["consts"] = X.walk_consts(sop)
             # structure is compared only where the model mirrors the real tree shape: no InsertionOperator fallback and
             # no n-ary linear SumOperator (the library flattens sums of linear operators, the model's `add` is binary)
-            res["has_insertion"] = "InsertionOperator" in repr(sop) or "SumOperator" in repr(op)
+            res["has_insertion"] = ("InsertionOperator" in repr(sop) or "SumOperator" in repr(op)
+                                    or "VariableCovariance" in repr(op))
             # make_partial_var on the ORIGINAL operator
             lin = op(ift.Linearization.make_partial_var(p, S, wm))
             res["partial"] = dict(val=X.to_flat(lin.val, tdom), jac=X.dense(lin.jac, b, din, tdom),
@@ -174,7 +175,7 @@ def canon_consts(lst):
     out = []
     for en, vals in lst:
         flat = tuple(round(abs(float(v)), 9) for k in sorted(vals) for v in vals[k])
-        out.append((bool(en), tuple(sorted(vals)), flat))
+        out.append((bool(en), flat))      # key names are not compared (helper keys of einsum operands, ducktapes)
     return sorted(out)
 
 
